@@ -7,11 +7,64 @@ import numpy as np
 from .. import gen, impl, oracle, progs, ser, stream
 
 ID = "C09"
-LEVEL = "translation_validation"
-PROPS_MODULE = None
-THEOREMS = []
-LEAN_FILES = []
-PLANNED = ["sync_obsEq", "sync_idem", "Op.congr_obsEq", "Prog.lazy_unobservable"]
+LEVEL = "proof"
+PROPS_MODULE = "SymmModel.Props.C09"
+THEOREMS = [
+    "SymmModel.C09.obsEq_iff",
+    "SymmModel.C09.obsEq_refl",
+    "SymmModel.C09.obsEq_symm",
+    "SymmModel.C09.obsEq_trans",
+    "SymmModel.C09.toDense_congr",
+    "SymmModel.C09.full_of_valid",
+    "SymmModel.C09.signOk_of_valid",
+    "SymmModel.C09.phaseSync_elem",
+    "SymmModel.C09.phaseSync_phases",
+    "SymmModel.C09.phaseSync_idem",
+    "SymmModel.C09.phaseSync_obsEq",
+    "SymmModel.C09.toDense_sync",
+    "SymmModel.C09.phaseFlip_elem",
+    "SymmModel.C09.phaseTranspose_elem",
+    "SymmModel.C09.phaseGlobal_elem",
+    "SymmModel.C09.phaseSector_elem",
+    "SymmModel.C09.conjF_elem",
+    "SymmModel.C09.signs_applied_once",
+    "SymmModel.C09.transposeF_elem_block",
+    "SymmModel.C09.transposeF_elem",
+    "SymmModel.C09.multiplyDiagonal_elem",
+    "SymmModel.C09.phaseFlip_congr",
+    "SymmModel.C09.phaseTranspose_congr",
+    "SymmModel.C09.phaseGlobal_congr",
+    "SymmModel.C09.phaseSector_congr",
+    "SymmModel.C09.phaseSync_congr",
+    "SymmModel.C09.neg_congr",
+    "SymmModel.C09.mapVals_congr",
+    "SymmModel.C09.smul_congr",
+    "SymmModel.C09.conjF_congr",
+    "SymmModel.C09.daggerF_congr",
+    "SymmModel.C09.transposeF_congr",
+    "SymmModel.C09.multiplyDiagonal_congr",
+    "SymmModel.C09.phaseSync_canonical",
+    "SymmModel.C09.binaryBlockwise_congr",
+    "SymmModel.C09.tensordotF_congr",
+    "SymmModel.C09.matmulF_congr",
+    "SymmModel.C09.traceF_congr",
+    "SymmModel.C09.einsumF_congr",
+    "SymmModel.C09.fuseF_congr",
+    "SymmModel.C09.unfuseF_congr",
+    "SymmModel.C09.toDenseF_congr",
+    "SymmModel.C09.tensordotF_sync",
+    "SymmModel.C09.SOp.congr_obsEq",
+    "SymmModel.C09.Prog.lazy_unobservable",
+    "SymmModel.C09.Prog.sync_first",
+    "SymmModel.C09.Prog.lazy_unobservable_dense",
+    "SymmModel.C09.exA_full",
+    "SymmModel.C09.exA_signOk",
+    "SymmModel.C09.phaseFlip_elem_needs_pm",
+    "SymmModel.C09.phaseGlobal_elem_needs_distinct",
+    "SymmModel.C09.mapVals_congr_needs_odd"
+]
+LEAN_FILES = ["SymmModel.Props.C09", "SymmModel.Proofs.LazyLemmas"]
+PLANNED = ["congruence for the decompositions (svd/qr/eigh under the kernel contract)", "the reductions (sum/max/min)", "squeeze/expandDims", "fuse when every group is empty"]
 RULE = ("random fermionic programs (length <= 5) over arrays whose pending-sign tables come from sequences of "
         "transpose / phase_flip / phase_transpose / phase_global / conj; each program is run on the real code as "
         "is and with phase_sync() applied to every operand and after every step; all step results and terminal "
